@@ -17,7 +17,7 @@ from concurrent.futures import ThreadPoolExecutor
 VERIF = os.path.dirname(os.path.dirname(os.path.abspath(__file__)))
 REPO = os.environ.get("PHQ_REPO", "/repo")
 INC = os.path.join(REPO, "include")
-CACHE = os.path.join(VERIF, ".cache")
+CACHE = os.environ.get("VF_CACHE_DIR") or os.path.join(VERIF, ".cache")
 PHQX = os.path.join(VERIF, ".build", "phqx")
 TOOL_SRC = os.path.join(VERIF, "tool", "phqx.cc")
 NUMERIC = ["float", "double", "long double"]
